@@ -183,6 +183,29 @@ def check_rel_interval(spec, ctx):
 # ------------------------------------------------------------------------------------ parent location -> relative
 
 
+def point_maps_intact(ctx, loc, pos, overlap, clause, strand):
+    """after a conversion was asked of a location (as receiver or as argument) its own point-wise maps still enumerate its bases
+    5'->3' and invert each other - a conversion that reorders or rewrites the receiver's block list shows up here"""
+    if strand == ".":
+        return   # direction-dependent maps refuse unstranded locations (documented)
+    try:
+        got = [loc.relative_to_parent_pos(i) for i in range(len(pos))]
+    except Exception as e:
+        ctx.fail(clause + ":r2p_raises_afterwards", repr(e)[:100])
+        return
+    ctx.eq(clause + ":r2p_enumerates_afterwards", got, pos)
+    if not overlap:
+        try:
+            back = [loc.parent_to_relative_pos(p_) for p_ in pos]
+        except Exception as e:
+            ctx.fail(clause + ":p2r_raises_afterwards", repr(e)[:100])
+            return
+        ctx.eq(clause + ":p2r_inverse_afterwards", back, list(range(len(pos))))
+    sb = [(b_.start, b_.end) for b_ in loc.scan_blocks()]
+    exp_sb = rm.canonical_sort(rm.loc_blocks(loc), strand)
+    ctx.eq(clause + ":scan_blocks_5p_to_3p_afterwards", sb, exp_sb if strand != "-" else list(reversed(exp_sb)))
+
+
 def check_rel_location(spec, ctx):
     L, Q = spec["loc"], spec["query"]
     labels_for(ctx, L)
@@ -230,6 +253,16 @@ def check_rel_location(spec, ctx):
                 ctx.eq("rel_location_image_overlapping", sorted(set(pos[i] for i in rel_idx)), sorted(common), extra={"opt": opt})
         if common and len(common) < len(set(qpos)):
             ctx.label("query_partially_outside")
+    # both operands keep their own coordinate maps
+    point_maps_intact(ctx, loc, pos, l_overlap, "rel_location:receiver", L["strand"])
+    point_maps_intact(ctx, q, qpos, q_overlap, "rel_location:argument", Q["strand"])
+    # ... also when the roles are swapped (the location that was the argument becomes the reference)
+    try:
+        q.parent_to_relative_location(loc)
+    except (LocationOverlapException, InvalidStrandException):
+        pass
+    point_maps_intact(ctx, loc, pos, l_overlap, "rel_location:argument_of_swapped_call", L["strand"])
+    point_maps_intact(ctx, q, qpos, q_overlap, "rel_location:receiver_of_swapped_call", Q["strand"])
 
 
 # ------------------------------------------------------------------------------------ interval wrappers
